@@ -35,6 +35,11 @@ def run(repo, res, tier):
     c11.lookup_rule(repo, res)
     c11.ff_specialized_command(repo, res)
     common.run_traversals(repo, res, only={"check::specialize_nonterminals", "check::resolve_nonterminals"})
+    # a command deep in a chain of definitions is reached only if definitions are expanded in dependency order (TOPO, shared with C02);
+    # the command tables of two within-word expressions are shared only when compared (ISOCOV, shared with C04)
+    from . import c02
+    c02.postorder(repo, res)
+    c04.isocov(repo, res)
     res.floor("SK-CMD", res.count("SK-CMD"), 17)
     res.floor("SK-MATCHFN", res.count("SK-MATCHFN"), 6)
     res.floor("FF", res.count("FF"), 3)  # one arm per shell today (4 x 4 fields); a single shared constructor is 4 instances
